@@ -35,7 +35,7 @@ def scan_assumptions(text):
     return found
 
 
-def run_unit(repo, unit_name, gen_dir, rlimit=None, timeout=600):
+def run_unit(repo, unit_name, gen_dir, rlimit=None, timeout=600, tier='quick'):
     """Returns a result dict:
        status: ok | failed | undecided
        obligations: {id: discharged|failed|undecided}
@@ -79,4 +79,29 @@ def run_unit(repo, unit_name, gen_dir, rlimit=None, timeout=600):
     res['verus_wall_s'] = r['wall_s']
     res['wall_s'] = time.time() - t0
     res['raw_tail'] = '\n'.join(d.get('rendered', '') for d in r['diags'] if d.get('level') == 'error')[:6000]
+    # a failed obligation must be reproducible: if the same text verifies under another SMT seed, the failure is a
+    # solver instability (undecided), not a property violation
+    if an['status'] == 'failed' and unit_name != '_canary':
+        for seed in (7, 11):
+            r2 = verus.run_verus(gen, rlimit=rlimit, timeout=timeout, extra=['--smt-option', f'smt.random_seed={seed}'])
+            a2 = verus.analyse(a, r2)
+            if a2['status'] == 'ok':
+                res['status'] = 'undecided'
+                res['notes'].append(f"obligations {[f['obligation'] for f in an['failures']][:4]} failed with the default SMT seed but the unit verifies with seed {seed}: solver instability, not reported as a violation")
+                res['obligations'] = {k: ('undecided' if v == 'failed' else v) for k, v in res['obligations'].items()}
+                res['failures'] = []
+                break
+    # thorough tier: proof-stability sweep — the same obligations under other SMT random seeds.  A seed that
+    # disagrees with the default run is reported as instability (a note), never as a violation.
+    if tier == 'thorough' and unit_name != '_canary' and an['status'] == 'ok':
+        seeds_ok = 0
+        for seed in (1, 2, 3, 4, 5):
+            r2 = verus.run_verus(gen, rlimit=rlimit, timeout=timeout, extra=['--smt-option', f'smt.random_seed={seed}'])
+            a2 = verus.analyse(a, r2)
+            res['smt_s'] += a2['smt_s']
+            if a2['status'] == 'ok':
+                seeds_ok += 1
+            else:
+                res['notes'].append(f"proof instability: seed {seed} gave {a2['status']} ({[f['obligation'] for f in a2['failures']][:4]})")
+        res['stability'] = f"{seeds_ok}/5 alternative SMT seeds agree"
     return res
